@@ -99,15 +99,25 @@ def check(run, replay=None):
         if r is None:
             continue
         nb = s.nblocks()
+        if s.tag == "initfail":
+            # judged only when the bus failure cut the HANDSHAKE of the first call (before its CMD17 frame went out): a
+            # failure in the middle of a data transfer leaves the card mid-block, and what later calls then return is
+            # C13's recovery clause (mark_card_uninit), not C12's
+            t0 = r.calltrace.get(0, [])
+            fpos = next((i for i, l in enumerate(t0) if l.startswith("F")), None)
+            cpos = next((i for i, l in enumerate(t0) if l.startswith("W 51")), None)
+            if fpos is None or (cpos is not None and cpos < fpos):
+                continue
         for k, res in sorted(r.results.items()):
             call = s.calls[k]; p = call.split(":")
             if res == "panic":
                 bad.append((s, k, "panic in `%s`" % call))
                 continue
             if s.tag == "initfail" and any(l.startswith("F") for l in r.calltrace.get(k, [])):
-                if not res.startswith("err "):
-                    bad.append((s, k, "an SPI transaction failed during `%s` but it returned %s" % (call, res)))
-                continue        # the call that hit the bus failure: any error; the calls after it are judged as usual
+                # the call that hit the bus failure is not judged here (reporting bus errors is C13's subject; the driver
+                # deliberately discards the result of the one courtesy byte it clocks after the handshake, so a failure of
+                # exactly that transfer leaves a correct Ok): the calls AFTER it are judged as usual
+                continue
             if s.tag == "overflow":
                 idx = int(p[2]) if p[0] in ("r", "rd") else int(p[1]) if p[0] == "w" else 0
                 if p[0] in ("r", "rd", "w") and not res.startswith("err "):
